@@ -29,6 +29,7 @@ class Ctx:
         self.rep = report
         self.tier = tier
         self.pdb_unchecked = pdb_unchecked
+        self.profile = "checked"
         self.cache = {}
         # totality mode (see total()): panic sites of the summaries built while a rule name is set are re-checked on
         # every concrete binding the rule folds the summary's result on
